@@ -5,6 +5,7 @@ cd "$(dirname "$0")"
 export CARGO_NET_OFFLINE=true
 mkdir -p work evidence
 python3 tools/gen_constants.py /repo lean/WowSrp/Gen/Constants.lean
+python3 tools/gen_code.py /repo lean/WowSrp/Gen/Code.lean
 MODS=$(python3 - <<'PY'
 import sys, importlib
 sys.path.insert(0, "tools")
